@@ -89,15 +89,18 @@ func VerifC12Ids() {
 		sh.loc[d] = loc
 	}
 	_ = fmt.Sprint
-	nv, nw := 1+v.Choice("violations", 2), v.Choice("warnings", 2)
-	var vs, ws []any
+	nv, nw, ni := 1+v.Choice("violations", 2), v.Choice("warnings", 2), v.Choice("infos", 2)
+	var vs, ws, is []any
+	for i := 0; i < ni; i++ {
+		is = append(is, verifResultTree(sh, depth, "i1"))
+	}
 	for i := 0; i < nv; i++ {
 		vs = append(vs, verifResultTree(sh, depth, "v1"))
 	}
 	for i := 0; i < nw; i++ {
 		ws = append(ws, verifResultTree(sh, depth, "w1"))
 	}
-	rs := verifResultSetOf("p", vs, ws, []any{})
+	rs := verifResultSetOf("p", vs, ws, is)
 	v.MapOrderGlobal(true)
 	text, err := BuildReport(&rs, c.TestValidationConfiguration{}, c.DefaultReportConfiguration())
 	v.MapOrder(false)
@@ -120,5 +123,13 @@ func VerifC12Ids() {
 		v.Assert("C12.ids-unique", !seen[id])
 		seen[id] = true
 	}
-	v.Assert("C12.ids-counted", len(ids) >= 3+nv+nw)
+	v.Assert("C12.ids-counted", len(ids) >= 3+nv+nw+ni)
+	rep, _, _ := verifReportParts(text)
+	results, _ := rep["result"].([]any)
+	v.Assert("C12.results-complete", len(results) == nv+nw+ni)
+	for _, r := range results {
+		m, isMap := r.(map[string]any)
+		_, typed := m["@type"]
+		v.Assert("C12.results-complete", isMap && typed && m["focusNode"] == "n" && m["resultMessage"] == "m")
+	}
 }
